@@ -22,6 +22,14 @@ METHODS = ["textDocument/hover", "textDocument/definition", "textDocument/implem
            "textDocument/codeAction"]
 HEAVY = {"textDocument/references", "textDocument/documentHighlight", "textDocument/rename"}
 
+HOSTILE_PP = [
+    "#define REAL_T real(kind=selected_real_kind(15, 307))\n#define NCELLS number_of_cells_in_the_mesh\n#define MODN some_long_module_name_that_does_not_exist\n"
+    "module ppm\n use MODN\n implicit none\n REAL_T :: tol\n integer :: NCELLS\n integer :: NCELLS\ncontains\n subroutine s()\n  tol = 1.0\n  NCELLS = 2\n"
+    "  number_of_cells_in_the_mesh = 3\n end subroutine s\nend module ppm\n",
+    "#define LONG_TYPE_NAME t\n#define SHORT a_very_long_replacement_text_for_a_short_macro\nmodule ppt\n type LONG_TYPE_NAME\n  integer :: SHORT\n end type\n"
+    " type(LONG_TYPE_NAME) :: v\ncontains\n subroutine u()\n  v%SHORT = 1\n  v%a_very_long_replacement_text_for_a_short_macro = 2\n end subroutine u\nend module ppt\n",
+]
+
 HOSTILE = [
     "",
     "module m1\ncontains\nsubroutine sub()\nend subroutine sub\nsubroutine s2()\nassociate (a => sub)\nprint *, a\nend associate\nend subroutine s2\nend module m1\n",
@@ -134,6 +142,9 @@ class Sweep:
             if stale and p.endswith("(%s)" % stale) and inp.get("file") != stale:
                 # a link held by another file into the syntax tree of a buffer that was edited and not yet saved (known finding)
                 sig = "C09:stale-link-unsaved-edit"
+            if where.endswith("definition") and str(inp.get("line_text", "")).strip().lower().startswith("include"):
+                # go-to-definition on an INCLUDE statement: the line of the statement, reported in the included file (known finding)
+                sig = "C09:include-definition-line"
             self.report(sig, "%s returns a place that does not exist: %s" % (where, p), inp, obj)
 
     def report(self, sig, what, inp, got):
@@ -269,6 +280,12 @@ def run_sweep(ctx, quick):
             sw.open(p, t)
             total += sw.sweep_doc(p, 1 if not quick else 2, 3)
             ctx.count(("hostile", i), True)
+        # preprocessed documents: the text the parser reads differs from the text of the document, line by line in length
+        for i, t in enumerate(HOSTILE_PP):
+            p = os.path.join(src, "hostile_pp_%d.F90" % i)
+            sw.open(p, t)
+            total += sw.sweep_doc(p, 1, 1)
+            ctx.count(("hostile-pp", i), True)
         for k in range(3 if quick else 25):
             g = c04.Gen(ctx.rng, keyword_names=(k % 2 == 1))
             lines = []
@@ -344,6 +361,16 @@ def history_phase(ctx, sw, src):
         impl.did_change(sw.srv, b, [{"range": {"start": {"line": 13, "character": c0}, "end": {"line": 13, "character": c1}}, "text": txt}])
         total += sw.sweep_doc(b, 1, 1)
     ctx.count(("history", "single-line edits between sweeps"), True)
+    # an entity of a short INCLUDEd file duplicates one of the includer, far down in the includer: both documents publish
+    # diagnostics (validated by the sweep of every published range), neither may address a line of the other
+    dup_inc = os.path.join(src, "hist_dup_inc.f90")
+    dup_main = os.path.join(src, "hist_dup_main.f90")
+    sw.open(dup_inc, "integer :: hist_dup\n")
+    sw.open(dup_main, "program hist_dup_main\n use hist_nowhere_mod\n implicit none\n integer :: hist_dup\n\n\n\n\n include 'hist_dup_inc.f90'\n hist_dup = 1\nend program hist_dup_main\n")
+    sw.open(dup_inc)        # opened again: diagnostics are published (and validated) with the INCLUDE resolved
+    sw.open(dup_main)
+    total += sw.sweep_doc(dup_inc, 1, 1)
+    total += sw.sweep_doc(dup_main, 3, 2)
     # known finding: go-to-definition on an INCLUDE statement reports the line of the statement as a line of the included file
     with open(inc, "w") as f:
         f.write("integer :: hist_z\n")
